@@ -741,6 +741,12 @@ class C13(SolverSuite):
             if rng.random() < 0.5:
                 s1["listeners"].append({"kind": "recording", "overrides": [rng.choice(ALL_CB)]})
             s1["params"]["itersLimit"] = min(s1["params"]["itersLimit"], 12)
+            if rng.random() < 0.4:
+                # one console listener object attached to both solvers (each final report must still be its own solver's)
+                shared = {"kind": "console", "mode": rng.choice(["full", "custom", "result"]), "iters": rng.choice([1, 2, 5]), "shared": "L"}
+                s1["listeners"].append(dict(shared))
+                spec["listeners"].append(dict(shared))
+                spec["brackets"] = True
             actors["S1"] = s1
             ops1 = G.gen_single_ops(rng, "S1", rng.randint(0, 8), with_solve=rng.random() < 0.8)
             ops = interleave(rng, [ops, ops1])
